@@ -5,6 +5,7 @@ import Dawn.Model.Env
     fp <cfg> <root> <heap>            → `ok <hex of the bytes>` | `err outOfFuel` | `err badRef`
     ops <cfg> <root> <heap>           → `ok <number of opcodes> <number of MEMOIZE> <number of Recursive markers>`
     eq <limit> <x> <y> <heap>         → `ok 0|1` | `err depth`        (`starlark.EqualDepth`, both values in one heap)
+    reason <old|safe> <hex key>,…     → `ok <hex reason>` | `panic`   (reason text of `diffEnv` for a diff with these top-level keys)
     decide <old|d16|fixed> <same 0|1> <x> <y> <heap> → `upToDate` | `rerun` | `buildError`   (`diffEnv`; `-` for x = never run)
 
   <cfg> is six characters 0/1: per-encoding pickler, batch re-encode, counter memo ids, builtin identity, signature,
@@ -139,6 +140,15 @@ def step (line : String) : String :=
         | .rerun _ => "rerun"
         | .buildError _ => "buildError"
     | _, _ => "bad-input"
+  | ["reason", rule, keys] =>
+    match (if keys == "-" then some [] else (keys.splitOn ",").mapM unhexStr) with
+    | none => "bad-input"
+    | some ks =>
+      if rule == "old" then
+        match reasonForOld ks with
+        | some r => "ok " ++ hexStr r
+        | none => "panic"
+      else "ok " ++ hexStr (reasonFor ks)
   | _ => "bad-op"
 
 def main : IO Unit := mainLoop step
